@@ -25,6 +25,8 @@ def observe(sys_, text, context=None):
         return dict(raised='%s: %s' % (type(val).__name__, str(val)[:100]), problem=None, answer=None, codes=None,
                     calls=calls, text=None)
     problem, answer, codes = parse_return(val)
+    if problem is None and getattr(sys_, 'left_running', None):
+        problem = '%d handler task(s) still running when dispatch returned' % len(sys_.left_running)
     return dict(raised=None, problem=problem, answer=answer, codes=codes, calls=calls,
                 text=val[0] if val else None)
 
